@@ -61,7 +61,7 @@ func (c *vctx) Err() error            { return context.DeadlineExceeded }
 
 func TestVerifC18Core(t *testing.T) {
 	L := ev.Begin("C18", "c18-core", "model_checking",
-		"controlled scheduler over the real tcp.Server.Serve / Shutdown (mutex, go statement and <-ctx.Done() rewritten; fake listener whose Accept and Close are scheduling points; virtual-time context): 1-2 connections whose handlers finish early (before the wait), late (after it) or never, a late connect attempt, and Shutdown(ctx) with a wait of 10 virtual seconds started once the accept loop runs; every interleaving up to the preemption bound. invariants: no connection is accepted after Shutdown closed the listeners; a handler that finishes within the wait is never cut off; Shutdown returns at virtual time <= wait; after it returned every remaining connection is closed; no deadlock")
+		"controlled scheduler over the real tcp.Server.Serve / Shutdown (mutex, go statement and <-ctx.Done() rewritten; fake listener whose Accept and Close are scheduling points; virtual-time context): 1-2 connections whose handlers finish early (before the wait), late (after it) or never, a late connect attempt, and Shutdown(ctx) with a wait of 10 virtual seconds started once the accept loop runs, and (one connection) a Shutdown started at any moment of Serve's start; every interleaving up to the preemption bound. invariants: no connection is accepted after Shutdown closed the listeners; a handler that finishes within the wait is never cut off; Shutdown returns at virtual time <= wait; after it returned the listener is closed and every remaining connection is closed; no deadlock")
 	type hk struct {
 		name string
 		dur  int64 // virtual seconds; <0 never
@@ -73,6 +73,12 @@ func TestVerifC18Core(t *testing.T) {
 		for _, b := range kinds {
 			scs = append(scs, []hk{a, b})
 		}
+	}
+	// the same with a Shutdown that may come at any moment of the server's start (before Serve has
+	// taken its listener, while it takes it, after): marked by a leading "anytime" pseudo handler
+	nAccept := len(scs)
+	for _, a := range kinds {
+		scs = append(scs, []hk{a})
 	}
 	const wait = int64(10 * time.Second)
 	bound := 1
@@ -86,7 +92,11 @@ func TestVerifC18Core(t *testing.T) {
 			continue
 		}
 		hs := hs
+		anytime := i >= nAccept
 		name := ""
+		if anytime {
+			name = "shutdown-at-any-moment+"
+		}
 		for _, h := range hs {
 			name += h.name + "+"
 		}
@@ -131,6 +141,7 @@ func TestVerifC18Core(t *testing.T) {
 			var shutdownReturnedAt int64 = -1
 			var listenersClosedAccepts = -1
 			lateAccepted := false
+			listenerLeftOpen := false
 			x.Go("serve", func() { srv.Serve(l) })
 			x.Go("clients", func() {
 				for k := 0; k < n; k++ {
@@ -140,14 +151,22 @@ func TestVerifC18Core(t *testing.T) {
 				}
 			})
 			x.Go("shutdown", func() {
-				vsched.BlockUntil("accept-loop-running", func() bool { return l.parked || l.accepts > 0 })
+				if !anytime {
+					vsched.BlockUntil("accept-loop-running", func() bool { return l.parked || l.accepts > 0 })
+				}
 				ctx := &vctx{Context: context.Background(), done: make(chan struct{})}
 				vsched.AfterFunc(wait, func() { close(ctx.done); vsched.MarkClosed(ctx.done) })
 				srv.Shutdown(ctx)
 				shutdownReturnedAt = vsched.Now()
 			})
 			x.Go("late-client", func() {
-				vsched.BlockUntil("listeners-closed", func() bool { return l.closed })
+				vsched.BlockUntil("listeners-closed", func() bool { return l.closed || shutdownReturnedAt >= 0 })
+				if !l.closed {
+					// Shutdown returned and the listener is still open
+					listenerLeftOpen = true
+					l.Close() // lets the accept loop end so that the execution terminates
+					return
+				}
 				listenersClosedAccepts = l.accepts + len(l.pending)
 				a, _ := vnet.Pair("late", l.Addr(), "latepeer", &net.TCPAddr{IP: net.IPv4(192, 0, 2, 9), Port: 6000})
 				if l.connect(a) {
@@ -162,6 +181,10 @@ func TestVerifC18Core(t *testing.T) {
 			}
 			if shutdownReturnedAt > wait {
 				x.Fail("shutdown-returned-after-the-wait", d)
+				return
+			}
+			if listenerLeftOpen {
+				x.Fail("listener-still-open-after-shutdown-returned", d)
 				return
 			}
 			if lateAccepted || (listenersClosedAccepts >= 0 && l.accepts > listenersClosedAccepts) {
